@@ -31,6 +31,7 @@ type hdGen struct {
 	rsBackend map[int]int
 	gated bool
 	mcuTok int
+	blocked map[int]bool
 }
 
 func (g *hdGen) pickConn() int {
@@ -38,6 +39,21 @@ func (g *hdGen) pickConn() int {
 		return 1
 	}
 	return pick(g.r, g.conns)
+}
+
+// a connection that sent an offer to a gated media server handles nothing else until the
+// creation completed: the generator sends nothing more on it until the next flush
+func (g *hdGen) pickFreeConn() (int, bool) {
+	var free []int
+	for _, c := range g.conns {
+		if !g.blocked[c] {
+			free = append(free, c)
+		}
+	}
+	if len(free) == 0 {
+		return 0, false
+	}
+	return pick(g.r, free), true
 }
 
 func (g *hdGen) idref(priv bool) *hdIdRef {
@@ -96,7 +112,11 @@ func (g *hdGen) op() hdOp {
 		g.conns = append(g.conns, g.next)
 		return hdOp{K: "connect", C: g.next, Addr: 1 + r.intn(3)}
 	}
-	c := g.pickConn()
+	c, okc := g.pickFreeConn()
+	if !okc || (g.gated && len(g.blocked) > 0 && r.chance(15)) {
+		g.blocked = map[int]bool{}
+		return hdOp{K: "mcuflush"}
+	}
 	b, authed := g.auth[c]
 	if !authed && r.chance(75) {
 		// hello
@@ -143,6 +163,9 @@ func (g *hdGen) op() hdOp {
 	if g.opts.media && r.chance(30) {
 		switch r.intn(10) {
 		case 0, 1, 2, 3:
+			if g.gated {
+				g.blocked[c] = true
+			}
 			return hdOp{K: "media", C: c, Mk: "offer", Stream: pick(r, []string{"video", "video", "screen", "audio"}), Media: 1 + r.intn(3),
 				To: &hdRecipient{T: "session", Id: &hdIdRef{T: "pub", C: c}}}
 		case 4, 5, 6:
@@ -312,7 +335,7 @@ func (g *hdGen) removeConn(c int) {
 }
 
 func hdGenCase(r *vrng, id int, opts hdGenOpts, n int) *hdCase {
-	g := &hdGen{r: r, opts: opts, auth: map[int]int{}, intern: map[int]bool{}, rsOf: map[int]int{}, rsBackend: map[int]int{}}
+	g := &hdGen{r: r, opts: opts, blocked: map[int]bool{}, auth: map[int]int{}, intern: map[int]bool{}, rsOf: map[int]int{}, rsBackend: map[int]int{}}
 	c := &hdCase{Id: id, Mode: 1, Backends: []hdBackendCfg{{}, {}}}
 	if opts.media && r.chance(40) {
 		c.Gated = true
@@ -323,6 +346,9 @@ func hdGenCase(r *vrng, id int, opts hdGenOpts, n int) *hdCase {
 	}
 	for i := 0; i < n; i++ {
 		c.Ops = append(c.Ops, g.op())
+	}
+	if g.gated {
+		c.Ops = append(c.Ops, hdOp{K: "mcuflush"})
 	}
 	return c
 }
